@@ -86,6 +86,45 @@ class _Finder(importlib.abc.MetaPathFinder, importlib.abc.Loader):
             module.__dict__["np"] = npx
         for k, v in _extra_globals.items():
             module.__dict__[k] = v
+        _take_snapshot(sub, module)
+
+
+_snapshots = {}
+
+
+def snapshot_state(modname):
+    """the snapshot is taken automatically right after import; this only forces the import"""
+    sym(modname)
+
+
+def _take_snapshot(modname, mod):
+    import copy
+    snap = {}
+    for k, v in mod.__dict__.items():
+        if isinstance(v, (dict, list, set)) and not k.startswith("__"):
+            try:
+                snap[k] = copy.deepcopy(v)
+            except Exception:
+                pass
+    _snapshots[modname] = snap
+
+
+def reset_state(modname):
+    """restore module-level containers to the snapshot, so that no state leaks from one explored path
+    (or one harness step) into the next; new container globals are emptied"""
+    import copy
+    mod = sym(modname)
+    snap = _snapshots.get(modname, {})
+    for k, v in list(mod.__dict__.items()):
+        if isinstance(v, (dict, list, set)) and not k.startswith("__"):
+            base = snap.get(k, type(v)())
+            if len(v) == 0 and len(base) == 0:
+                continue
+            if isinstance(v, list):
+                v[:] = copy.deepcopy(base)
+            else:
+                v.clear()
+                v.update(copy.deepcopy(base))
 
 
 _installed = False
